@@ -415,29 +415,110 @@ fn block_from(v: &Value) -> hk::DecodedDctBlock {
     }
 }
 
-/// {"op":"idct","blocks":[{"k":"full|dc|horiz|vert|zero","c":[64 ints row-major v*8+u]}..],"base":B}
-/// Each block is transformed alone by idct_channel over an 8x8 output pre-filled with `base`.
+/// {"op":"idct","set":NAME,"blocks":[{"k":"full|dc|horiz|vert|zero","c":[64 ints row-major v*8+u]}..]}
+/// Each block is transformed alone by idct_channel, once over an 8x8 output pre-filled with 0 and once
+/// pre-filled with 255 (so the signed residual is observable through the unsigned, clipped output).
 pub fn idct(cmd: &Value) -> Value {
     let mut ev = cmd.clone();
-    let base = cmd["base"].as_u64().unwrap_or(0) as u8;
     let blocks = cmd["blocks"].as_array().cloned().unwrap_or_default();
+    run_idct(&mut ev, &blocks);
+    ev
+}
+
+fn run_idct(ev: &mut Value, blocks: &[Value]) {
     let r = guarded(|| {
-        let mut outs = Vec::new();
-        for b in &blocks {
+        let mut o0 = Vec::new();
+        let mut o255 = Vec::new();
+        for b in blocks {
             let blk = [block_from(b)];
-            let mut out = vec![base; 64];
+            let mut out = vec![0u8; 64];
             hk::idct_channel(&blk, &mut out, 1, 8);
-            outs.push(out);
+            o0.push(out);
+            let mut out = vec![255u8; 64];
+            hk::idct_channel(&blk, &mut out, 1, 8);
+            o255.push(out);
         }
-        outs
+        (o0, o255)
     });
     match r {
-        Ok(o) => {
+        Ok((a, b)) => {
             ev["ret"] = json!("ok");
-            ev["out"] = json!(o);
+            ev["out0"] = json!(a);
+            ev["out255"] = json!(b);
         }
         Err(m) => ev["ret"] = json!(format!("panic:{}", m)),
     }
+}
+
+fn classify(c: &[i64]) -> &'static str {
+    let nz = |i: usize| c[i] != 0;
+    let any_off_row = (8..64).any(nz);
+    let any_off_col = (0..64).filter(|i| i % 8 != 0).any(nz);
+    if !(0..64).any(nz) {
+        "zero"
+    } else if !any_off_row && !any_off_col {
+        "dc"
+    } else if !any_off_row {
+        "horiz"
+    } else if !any_off_col {
+        "vert"
+    } else {
+        "full"
+    }
+}
+
+/// {"op":"annexa","L":256,"H":255,"sign":1,"start":K,"n":N,"seed":1}: the input side of the H.263 Annex A
+/// (IEEE 1180) procedure - pseudo-random pixel blocks from the prescribed generator, forward DCT in
+/// double precision, rounding, clipping to -2048..2047 - and the real IDCT applied to each block.
+/// The event is recorded as an "idct" event (the specification never sees how the inputs were made).
+pub fn annexa(cmd: &Value) -> Value {
+    let mut ev = cmd.clone();
+    let l = cmd["L"].as_i64().unwrap_or(256);
+    let h = cmd["H"].as_i64().unwrap_or(255);
+    let sign = cmd["sign"].as_i64().unwrap_or(1);
+    let start = cmd["start"].as_u64().unwrap_or(0) as usize;
+    let n = cmd["n"].as_u64().unwrap_or(1) as usize;
+    let mut randx: i32 = cmd["seed"].as_i64().unwrap_or(1) as i32;
+    let z = 0x7fffffff as f64;
+    let mut rnd = |lo: i64, hi: i64| -> i64 {
+        randx = randx.wrapping_mul(1103515245).wrapping_add(12345);
+        let j = (randx & 0x7ffffffe) as i64;
+        let x = (j as f64) / z * ((hi - lo + 1) as f64);
+        (x as i64) + lo
+    };
+    let mut blocks = Vec::new();
+    for bi in 0..(start + n) {
+        let mut px = [[0f64; 8]; 8];
+        for row in px.iter_mut() {
+            for v in row.iter_mut() {
+                *v = (rnd(-l, h) * sign) as f64;
+            }
+        }
+        if bi < start {
+            continue;
+        }
+        let mut c = vec![0i64; 64];
+        for v in 0..8 {
+            for u in 0..8 {
+                let mut acc = 0f64;
+                for y in 0..8 {
+                    for x in 0..8 {
+                        acc += px[y][x]
+                            * ((2 * x + 1) as f64 * u as f64 * std::f64::consts::PI / 16.0).cos()
+                            * ((2 * y + 1) as f64 * v as f64 * std::f64::consts::PI / 16.0).cos();
+                    }
+                }
+                let cu = if u == 0 { std::f64::consts::FRAC_1_SQRT_2 } else { 1.0 };
+                let cv = if v == 0 { std::f64::consts::FRAC_1_SQRT_2 } else { 1.0 };
+                let f = (0.25 * cu * cv * acc).round().clamp(-2048.0, 2047.0);
+                c[v * 8 + u] = f as i64;
+            }
+        }
+        blocks.push(json!({"k": classify(&c), "c": c}));
+    }
+    ev["op"] = json!("idct");
+    ev["blocks"] = json!(blocks);
+    run_idct(&mut ev, &blocks);
     ev
 }
 
